@@ -213,9 +213,29 @@ pub fn execute_c10(plan: &Plan) -> Outcome {
                 let tag = b"probe-one-tag";
                 let (_, wire) = RefClient::start(&c, &mut g, unix_now(), &addr, tag, &opts);
                 let limit = if kind == "vmess-ts" { 120 } else { 30 };
-                let expect = delta.abs() <= limit && type_byte == 0;
-                let got = present(&wire, tag, &log).await;
-                obs.push((format!("timestamp offset {delta:+} s, type byte {type_byte}"), expect, got));
+                // every third sweep the connection is opened when the request is sealed and then held idle (or its first bytes
+                // trickle in) for `idle` seconds before the request is presented on it: freshness is judged when the request
+                // is read, against the clock of that moment - not against the moment the connection was accepted
+                let idle: i64 = if (plan.extra["udp_history"].as_u64().unwrap_or(0)) == 1 && kind != "type" { [3i64, 20, 29, 31, 33, 45, 64, 90, 125, 200][(plan.seed / 12 % 10) as usize] } else { 0 };
+                let age = delta - idle;
+                let expect = age.abs() <= limit && type_byte == 0;
+                let got = if idle == 0 {
+                    present(&wire, tag, &log).await
+                } else {
+                    match TcpStream::connect(server_addr()).await {
+                        Ok(mut s) => {
+                            s.set_own_styles(0, 0);
+                            tokio::time::sleep(Duration::from_secs(idle as u64)).await;
+                            let _ = s.write_all(&wire).await;
+                            tokio::time::sleep(Duration::from_millis(300)).await;
+                            let hit = log.lock().unwrap().conns.iter().any(|c| c.windows(tag.len()).any(|w| w == tag));
+                            drop(s);
+                            hit
+                        }
+                        Err(_) => false,
+                    }
+                };
+                obs.push((format!("timestamp offset {delta:+} s when sealed, type byte {type_byte}, presented after {idle} s on a connection opened when it was sealed (offset {age:+} s when read)"), expect, got));
                 // whatever the probe was, a fresh correct handshake is served afterwards
                 let tag2 = b"probe-control-tag";
                 let (_, wire) = RefClient::start(&c, &mut g, unix_now(), &addr, tag2, &ClientOpts::default());
